@@ -418,7 +418,9 @@ def clash (a b : Char) : Bool :=
 
 def triviaPool : List String := [
   "", " ", "", "  ", "\n", "\t", " ", "\r\n", " # comment\n", "#\n", "# a \\\n continued \\\\\\\n more\n",
-  " # even \\\\\n", "#\\\r\n x\n", "\n# x\n# y\n  ", "# \\\\\\\\\n", " ", "  "]
+  " # even \\\\\n", "#\\\r\n x\n", "\n# x\n# y\n  ", "# \\\\\\\\\n", " ", "  ",
+  -- a backslash followed by blanks before the newline does NOT continue the comment
+  "# note \\ \n", "# t \\\t\n", "#\\ \r\n", "# odd \\\\\\  \n", "# e \\ \\\n cont \\ \n"]
 
 def triviaNonEmpty : List String := triviaPool.filter (· ≠ "")
 
